@@ -31,6 +31,11 @@ func FieldName(t types.Type, i int) string {
 func Path(v ssa.Value) string {
 	switch x := v.(type) {
 	case *ssa.Parameter:
+		if e, ok := paramAsField[x]; ok {
+			if i := strings.Index(e.key, "."); i >= 0 {
+				return e.owner.Name() + e.key[i:]
+			}
+		}
 		return x.Name()
 	case *ssa.FreeVar:
 		return x.Name()
@@ -156,6 +161,9 @@ func LoadSource(v ssa.Value) ssa.Value {
 	if !ok || u.Op != token.MUL {
 		return nil
 	}
+	if fa, isFA := u.X.(*ssa.FieldAddr); isFA {
+		return fieldLoadSource(fa, u)
+	}
 	a, ok := u.X.(*ssa.Alloc)
 	if !ok {
 		return nil
@@ -166,6 +174,54 @@ func LoadSource(v ssa.Value) ssa.Value {
 	}
 	if len(st) > 1 {
 		return ReachingStore(a, u)
+	}
+	return nil
+}
+
+// fieldLoadSource: a load of field f of a local struct variable that never leaves the function as an address (it is only
+// used through field addresses that are stored to / loaded from, and whole-struct loads): when exactly one store writes
+// that field and it dominates the load, the load yields the stored value (`var s T; s.a = x; s.b = !s.a`).
+func fieldLoadSource(fa *ssa.FieldAddr, u *ssa.UnOp) ssa.Value {
+	a, ok := fa.X.(*ssa.Alloc)
+	if !ok || a.Referrers() == nil {
+		return nil
+	}
+	var stores []*ssa.Store
+	for _, r := range *a.Referrers() {
+		switch x := r.(type) {
+		case *ssa.FieldAddr:
+			if x.Referrers() == nil {
+				return nil
+			}
+			for _, r2 := range *x.Referrers() {
+				switch y := r2.(type) {
+				case *ssa.Store:
+					if y.Addr != ssa.Value(x) {
+						return nil // the field address itself is stored somewhere
+					}
+					if x.Field == fa.Field {
+						stores = append(stores, y)
+					}
+				case *ssa.UnOp:
+					if y.Op != token.MUL {
+						return nil
+					}
+				case *ssa.DebugRef:
+				default:
+					return nil
+				}
+			}
+		case *ssa.UnOp:
+			if x.Op != token.MUL {
+				return nil
+			}
+		case *ssa.DebugRef:
+		default:
+			return nil
+		}
+	}
+	if len(stores) == 1 && InstrDominates(stores[0], u) {
+		return stores[0].Val
 	}
 	return nil
 }
